@@ -122,7 +122,7 @@ def _serve_gzip(case):
             return self.d.flush()
 
         @property
-        def eof(self):      # read by _GzipMessageDelegate.finish() since the truncated-gzip fix (tornado c14a11a)
+        def eof(self):      # read by _GzipMessageDelegate.finish() since the truncated-gzip fix (tornado c73f142)
             return self.d.eof
 
     async def data_received(self, chunk):
